@@ -110,8 +110,9 @@ pub fn run(ctx: &Ctx) -> Value {
     // n-th weekday of a month: every (month, weekday, n) for 28 year classes (+ range ends)
     let mut years: Vec<i32> = (2000..2028).collect();
     years.extend([-262_143, 262_142, 0, -262_144, 262_143, i32::MIN, i32::MAX]);
-    for &y in &years { for m in 0..=13u32 { for w in 0..7 { for k in [0u8, 1, 2, 3, 4, 5, 6, 255] {
-        if ctx.quick() && (y % 4 != 0) && rng.chance(3, 4) { continue; }
+    for &y in &years { for m in 0..=13u32 { for w in 0..7 { for k in [0u8, 1, 2, 3, 4, 5, 6, 7, 52, 53, 54, 55, 105, 106, 157, 158, 209, 210, 255] {
+        // (counts around 53 / 105 / 157 / 209 land 1..4 years later in the SAME month: they denote nothing)
+        if ctx.quick() && (k > 6 || y % 4 != 0) && rng.chance(3, 4) { continue; }
         tw.emit(ev("nth", json!({"y": y, "m": m, "wd": w, "k": k}), || json!(odn(NaiveDate::from_weekday_of_month_opt(y, m, wd_of(w), k)))));
         counts[5] += 1;
     }}}}
